@@ -27,3 +27,13 @@ Theorem code_ex_table_agrees_with_ex_new : forall b, b < 256 -> ex_name_ok gen_e
 Proof.
   intros b Hb. unfold ex_name_ok. rewrite (expand_names_eq _ _ b gen_ex_new_table_is_model Hb). exact (ex_table_model_ok b Hb).
 Qed.
+
+(* slave ids: the four named constants and the three classification predicates as written in src/slave.rs
+   (the translator accepts the predicates only in the shape  == broadcast / >= min && <= max / > max) *)
+Theorem gen_slave_constants_are_model : gen_SLAVE = (0, 1, 247, 255).
+Proof. reflexivity. Qed.
+Theorem model_slave_classes_use_them : forall s,
+  slave_is_broadcast s = (s =? fst (fst (fst gen_SLAVE)))
+  /\ slave_is_single_device s = ((snd (fst (fst gen_SLAVE)) <=? s) && (s <=? snd (fst gen_SLAVE)))
+  /\ slave_is_reserved s = (snd (fst gen_SLAVE) <? s).
+Proof. intros s. repeat split; reflexivity. Qed.
